@@ -92,6 +92,28 @@ class ConcProgram(Program):
             cell = self.tls[slot][0]
             return m.run(clo[0], [a[1], Ref([cell], 0)], fr.subst)
 
+        # ---- the clock is environment: an arbitrary instant each time it is read
+        self.clock_reads = 0
+
+        @M('SystemTime::now')
+        def _(m, fr, a, mm):
+            return Opaque('instant')
+
+        @M('SystemTime::duration_since')
+        def _(m, fr, a, mm):
+            return Enum('Ok', [Opaque('duration')])
+
+        @M(r'^Result::<.*>::unwrap$', regex=True)
+        def _(m, fr, a, mm):
+            if a[0].variant != 'Ok':
+                raise Panic('unwrap on Err')
+            return a[0].fields[0]
+
+        @M('Duration::as_nanos')
+        def _(m, fr, a, mm):
+            self.clock_reads += 1
+            return I(z3.BitVec('clock!%d' % self.clock_reads, 128), 'u128')
+
         @M(r'^Cell::<.*>::new$', regex=True)
         def _(m, fr, a, mm):
             return [a[0]]
@@ -125,6 +147,9 @@ class ConcProgram(Program):
         m = re.match(r'^LinearCongruentialGenerator64::<(\d+), (\d+)>::(\w+)$', callee)
         if m:
             return self.one(m.group(3)), {'A': m.group(1) + '_u64', 'C': m.group(2) + '_u64'}
+        m = re.match(r'^LinearCongruentialGenerator64::<A, C>::(\w+)$', callee)
+        if m:
+            return self.one(m.group(1)), fr.subst
         m = re.match(r'^TreapNode::<T>::new$', callee)
         if m:
             return self.one('new', lambda f: 'TreapNode<T>' in (f.ret or '')), {}
@@ -133,6 +158,8 @@ class ConcProgram(Program):
     def _const(self, m, fr, s):
         if s in ('A', 'C') and s in fr.subst:
             return m.const(fr, fr.subst[s])
+        if s == 'std::time::SystemTime::UNIX_EPOCH':
+            return Opaque('epoch')
         if s.startswith('ZeroSized: {closure@'):
             return Opaque('closure', s)
         if re.match(r'^(treap_node::)?gen_priority::promoted\[\d+\]$', s):
